@@ -1693,6 +1693,58 @@ def r_attach(E):
                     f"back — edits of those ancestors no longer reach it", pm.path_of(cn), f.lineno,
                     f"{cn}.replace_in_mod_obj_container_without_recomputation"))
                 break
+    # all or nothing: the attach primitives refuse a value that is already attached to another object (a raise under a
+    # test on the value's own container). The replace primitive calls them on the new value *after* it has stored it and
+    # detached the old one, so that refusal must be established before its first mutation — otherwise the refused edit
+    # leaves the new value installed and the old one detached, and the rollback (which goes through the new value's
+    # container) puts the old value into the *other* object
+    from ..astutil import fully_expanded as _fx2
+    refusing = []
+    for cn in sorted(pm.classes):
+        if "ObjectLinkedToModelingObj" not in pm.mro(cn) and cn != "ObjectLinkedToModelingObj":
+            continue
+        m = next((x for x in pm.own_methods(cn) if x.name == "set_modeling_obj_container"), None)
+        if m is None:
+            continue
+        for r in [x for x in ast.walk(m) if isinstance(x, ast.Raise)]:
+            g = getattr(r, "_parent", None)
+            while g is not None and not isinstance(g, ast.If):
+                g = getattr(g, "_parent", None)
+            if g is not None and f"{m.args.args[0].arg}.modeling_obj_container" in norm(g.test) \
+                    and "is not None" in norm(g.test):
+                refusing.append(cn)
+    rel, f = pm.find_function("abstract_modeling_classes/object_linked_to_modeling_obj.py",
+                              "ObjectLinkedToModelingObj.replace_in_mod_obj_container_without_recomputation")
+    res.instances += 1
+    newp = f.args.args[1].arg if len(f.args.args) > 1 else "new_value"
+    rank = _so(f)
+
+    def is_mutation(n):
+        if isinstance(n, ast.Assign) and any(isinstance(t, ast.Subscript) for t in n.targets):
+            return True
+        return isinstance(n, ast.Call) and isinstance(n.func, ast.Attribute) and n.func.attr == "set_modeling_obj_container"
+    muts = [n for n in ast.walk(f) if is_mutation(n)]
+    if refusing and muts:
+        first = min(rank.get(id(n), 10 ** 9) for n in muts)
+        pre = False
+        for r in [x for x in ast.walk(f) if isinstance(x, ast.Raise) and rank.get(id(x), 10 ** 9) < first]:
+            g = getattr(r, "_parent", None)
+            while g is not None and not isinstance(g, ast.If):
+                g = getattr(g, "_parent", None)
+            if g is None:
+                continue
+            t = norm(_fx2(g.test, f))
+            if newp in t and "modeling_obj_container" in t:
+                pre = True
+        if not pre:
+            res.findings.append(Finding(
+                "R-ATTACH", "replace primitive refuses after it has mutated",
+                f"replace_in_mod_obj_container_without_recomputation stores `{newp}` and detaches the replaced value before "
+                f"it calls {newp}.set_modeling_obj_container(...), which refuses ({', '.join(sorted(set(refusing)))}: raise "
+                f"when the value is already attached to another object). `b.x = a.x` is refused with that error but leaves "
+                f"b.x holding a's value and b's old value detached; the rollback then goes through the new value's container "
+                f"and installs b's old value in *a*. The refusal has to be tested on `{newp}.modeling_obj_container` before "
+                f"the first store", rel, f.lineno, "ObjectLinkedToModelingObj.replace_in_mod_obj_container_without_recomputation"))
     # the attach primitive itself: every path that attaches (new container not None) registers the value on each of
     # its direct ancestors, every path that had a container deregisters first — no early exit in between (the
     # replace primitive relies on the second, seemingly redundant, attach to re-register a dict entry whose twin with
